@@ -2,7 +2,7 @@ import GomlVerif.Model.GoPrint
 import GomlVerif.Driver.DecGo
 /-! `gomlmodel gopp`: the model's text (`Goml.GoPrint.printItem`) of every top-level item of a dumped Go file, at
     widths 40 / 80 / 120, plus the model-side verdicts on the item (`ParenFree`, `GlueFree`). Line protocol:
-    in `id<TAB>(gofile item…)`, out `id<TAB>ok<TAB>text40<TAB>text80<TAB>text120<TAB>parenfree<TAB>gluefree` with the
+    in `id<TAB>(gofile item…)`, out `id<TAB>ok<TAB>text40<TAB>text80<TAB>text120<TAB>parenfree<TAB>gluefree<TAB>roots<TAB>roots-in-theorem-subset` with the
     items of the file joined as `File::to_doc` joins them. -/
 namespace Goml.Driver.GoPP
 open Goml Goml.Go Goml.GoPrint
@@ -21,7 +21,9 @@ def runLine (l : String) : String :=
       let t (w : Nat) := escLine (render w (intersperse (.hardline ++ .hardline) (F.items.map itemDoc)))
       let pf := F.items.all itemParenFree
       let gf := F.items.all fun it => glueFree (itemDoc it).pieces
-      s!"{id}\tok\t{t 40}\t{t 80}\t{t 120}\t{pf}\t{gf}"
+      let roots := F.items.flatMap itemRoots
+      let inSub := (roots.filter fun e => inSubset e && exprParenFree e).length
+      s!"{id}\tok\t{t 40}\t{t 80}\t{t 120}\t{pf}\t{gf}\t{roots.length}\t{inSub}"
     | none => s!"{id}\tdecode-error"
   | none => s!"{id}\tparse-error"
 
